@@ -249,6 +249,10 @@ Section RNG.
         let k := Z.to_nat every in
         let (v, g1) := shuffle (firstn k (si_rem s)) g in (skipn k (si_rem s), v, g1)
       else (si_rem s, si_vals s, g) in
+    (* an empty block (input exhausted, or every = 0) ends the pattern: StopIteration, raised before the shuffle
+       (repo fix 96adb47; the pinned code indexed the empty block: IndexError) *)
+    if (pos =? 0) && (match firstn (Z.to_nat every) (si_rem s) with [] => true | _ => false end)
+    then (Stop, mkShin (skipn (Z.to_nat every) (si_rem s)) [] 0, g) else
     match pyidx vals pos with
     | Some v => (Out (OZ v), mkShin rem vals (pos + 1), g')
     | None => (Fail, mkShin rem vals pos, g')
